@@ -357,6 +357,9 @@ class FBStep(common.Suite):
             "step_count_by_step": [b - a for a, b in counts],
             "step_count_delta": sc1 - sc0,
             "masses": [float(x) for x in masses.reshape(-1)],
+            # the configured step length is a setting: a step reads it and leaves it as it was (also when it is an array)
+            "delta_kept": bool(np.array_equal(np.broadcast_to(np.asarray(fb.delta, dtype=float), (len(atoms), 3)),
+                                              np.broadcast_to(np.asarray(case["delta"], dtype=float), (len(atoms), 3)))),
         }
         # the last rejection round as drawn: (zeta, u) of every coordinate that was still pending when the loop ended
         unis = [v for m, v in rec.log if m == "uniform"]
@@ -463,6 +466,8 @@ class FBStep(common.Suite):
             out.append((f"step:set-positions-calls:{obs['set_positions_calls']}", f"Atoms calls: {obs['trace']}"))
         if any(d != 0 for d in obs["step_count_by_step"]) or len(obs["step_count_by_step"]) != 1:
             out.append(("step:step-count-touched", f"step_count change inside step(): {obs['step_count_by_step']}"))
+        if obs.get("delta_kept") is False:
+            out.append(("step:delta-changed", "the step changed the configured delta (an array multiplied in place?)"))
         if obs["step_count_delta"] != (1 if case["via"] == "run" else 0):
             out.append(("step:step-count-driver", f"step_count changed by {obs['step_count_delta']} via {case['via']}"))
         m = obs["masses"]
